@@ -40,7 +40,7 @@ PROP = {'assumptions': ['tokio paused-clock quiescence barrier: sleep(1ns)/timeo
                'transcription is tied to the code by a differential run of the real collections, a real local mirror() and a hand-held '
                'subscription.',
  'props_files': ['Props/C13_Vec.v', 'Props/C13_VecDeque.v', 'Props/C13_List.v', 'Props/C13_HashMap.v', 'Props/C13_HashSet.v'],
- 'rule': 'Every vector / deque case ends with a second-level subscription taken from the mirror while a reader holds a view of it and one more event is on its way (the mirror task queued for the write lock): its mirror must equal the collection. In half of the vector / deque / list cases (chosen by the input) the hand-held subscription is consumed the way a select! loop does: a pending recv() future is dropped and recreated after the other tasks ran, also right after subscribing (map and set poll once per round in every case). Sequences: cases from one PRNG (VERIF_SEED): initial contents of 0-6 elements, 5-60 mutator calls drawn over the whole API with '
+ 'rule': 'Every list case ends with a subscription made through a distributor handle after the list was marked done and dropped (every item, then Done). Every vector / deque case ends with a second-level subscription taken from the mirror while a reader holds a view of it and one more event is on its way (the mirror task queued for the write lock): its mirror must equal the collection. In half of the vector / deque / list cases (chosen by the input) the hand-held subscription is consumed the way a select! loop does: a pending recv() future is dropped and recreated after the other tasks ran, also right after subscribing (map and set poll once per round in every case). Sequences: cases from one PRNG (VERIF_SEED): initial contents of 0-6 elements, 5-60 mutator calls drawn over the whole API with '
          'indices at 0/len-1/len/len+1, no-op variants, rare panicking calls (caught, state unchanged), done() at a random point followed '
          'by repeated done()/panicking calls, one subscription point (start, middle, end, after done), both modes, max_size mostly large '
          'and sometimes 0-8; every case runs the real collection, a real mirror() and two hand-held subscriptions; the signature names '
